@@ -165,7 +165,7 @@ def deck_scene(decks, T=40, ceilos=('a',), ceilo_offsets=None, step=15.0):
     return rows
 
 
-ROW_ORDERS = ('asc', 'desc', 'evenodd', 'rotated', 'byceilo')
+ROW_ORDERS = ('asc', 'desc', 'evenodd', 'rotated', 'byceilo')     # + 'shuffle<k>': deterministic Fisher-Yates permutation number k (own LCG)
 
 
 def reorder(rows, order):
@@ -183,6 +183,13 @@ def reorder(rows, order):
     if order == 'rotated':
         k = len(asc) // 3
         return asc[k:] + asc[:k]
+    if order.startswith('shuffle'):
+        g = _lcg(1000 + int(order[7:]))
+        out = list(asc)
+        for i in range(len(out) - 1, 0, -1):
+            j = int(next(g) * (i + 1))
+            out[i], out[j] = out[j], out[i]
+        return out
     raise ValueError(order)
 
 
